@@ -123,6 +123,8 @@ def coverage(agg, tier, roots_):
             "ended_in_sampling", "success_runs", "evals_tr", "evals_geo"]
     cov, herr = e1prop.coverage_generic(agg, tier, roots_, RULE, need=need,
                                         dev_bound=1 if tier == "thorough" else 0)
+    cov["deviation_bound_completed"] = {"real_runs": 1 if tier == "thorough" else 0,
+                                        "control_skeleton": 3 if tier == "thorough" else 2}
     cov["statuses_seen"] = sorted(int(k[7:]) for k in agg.stats if k.startswith("status_"))
     for k in ["ctrl_runs", "ctrl_status_0", "ctrl_status_-2", "ctrl_status_5", "ctrl_status_6", "ctrl_resets"] + \
             [k for k in ctrl.SITE_KEYS]:
